@@ -180,6 +180,8 @@ class Sc(Sym):
         return None
 
     def _sc(self, o, f):
+        if getattr(o, "_wins_over_sc", False):
+            return NotImplemented        # the other operand's reflected operator takes over (unit objects)
         o2 = Sc.lift(o)
         if o2 is None:
             return None
